@@ -16,6 +16,29 @@ REGS = ['a', 'b', 'sp', 'SPQ', 'Rx', 'IDX']
 KEYWORDS = ['org', 'fill', 'zero', 'byte', 'cstr', 'align', 'memzone', 'define', 'include', 'LSB', 'BYTE1', 'if', 'endif', 'mute']
 
 
+# operand forms that embed an expression: source text and the bytes in front of the 16-bit value
+VIA = {'indirect-numeric': ('vind [{}]', [0xB5]), 'deferred-numeric': ('vdef [[{}]]', [0xB7]), 'indexed-register': ('vidx sp + {}', [0xC6, 0x21]),
+       'indirect-indexed-register': ('viix [a+{}]', [0xC9, 0x31]), 'indirect-register-offset': ('viro [sp + {}]', [0xCB, 0x05])}
+
+
+def make_isa(zones):
+    isa = gen_prog.layout_isa(16, endian='big', zones=zones)
+    isa['general']['registers'] = list(isa['general']['registers']) + ['SPQ', 'Rx', 'IDX']
+    a16 = {'size': 16, 'byte_align': True}
+    isa['operand_sets'].update({
+        'v_ind': {'operand_values': {'m': {'type': 'indirect_numeric', 'argument': dict(a16)}}},
+        'v_def': {'operand_values': {'m': {'type': 'deferred_numeric', 'argument': dict(a16)}}},
+        'v_idx': {'operand_values': {'m': {'type': 'indexed_register', 'register': 'sp', 'bytecode': {'value': 2, 'size': 4},
+                                           'index_operands': {'n': {'type': 'numeric', 'bytecode': {'value': 1, 'size': 4}, 'argument': dict(a16)}}}}},
+        'v_iix': {'operand_values': {'m': {'type': 'indirect_indexed_register', 'register': 'a', 'bytecode': {'value': 3, 'size': 4},
+                                           'index_operands': {'n': {'type': 'numeric', 'bytecode': {'value': 1, 'size': 4}, 'argument': dict(a16)}}}}},
+        'v_iro': {'operand_values': {'m': {'type': 'indirect_register', 'register': 'sp', 'bytecode': {'value': 5, 'size': 8}, 'offset': dict(a16)}}}})
+    for mn_, (set_, code_) in {'vind': ('v_ind', 0xB5), 'vdef': ('v_def', 0xB7), 'vidx': ('v_idx', 0xC6), 'viix': ('v_iix', 0xC9),
+                               'viro': ('v_iro', 0xCB)}.items():
+        isa['instructions'][mn_] = {'bytecode': {'value': code_, 'size': 8}, 'operands': {'count': 1, 'operand_sets': {'list': [set_]}}}
+    return isa
+
+
 def resolve_program(files, order):
     """files: {name: [items]}, order: main file name.  Annotates items; returns dict(kind, why, stream)."""
     stream = []
@@ -131,9 +154,12 @@ class C06(core.Check):
         'illegal:register-name', 'illegal:register-name/declared-in-upper-case', 'illegal:keyword-name', 'illegal:dup-global-across-files', 'illegal:dup-same-value',
         'dead-branch-inside-region', 'dead-branch-between-local-def-and-use', 'reference-on-a-muted-line', 'reference-in-a-zero-length-fill', 'const-between-def-and-use',
         'files:1', 'files:2', 'files:3+', 'expect:ACCEPT', 'expect:REJECT', 'ref:forward', 'ref:backward',
-        'label-not-first-on-its-line/global', 'label-not-first-on-its-line/local', 'label-not-first-on-its-line/file']}
+        'label-not-first-on-its-line/global', 'label-not-first-on-its-line/local', 'label-not-first-on-its-line/file',
+        'reference-inside:indirect-numeric', 'reference-inside:deferred-numeric', 'reference-inside:indexed-register',
+        'reference-inside:indirect-indexed-register', 'reference-inside:indirect-register-offset',
+        'local-inside-operand-form-with-same-named-global']}
 
-    def build(self, rng, illegal, mute_refs=None, zero_refs=None, join_p=0.15):
+    def build(self, rng, illegal, mute_refs=None, zero_refs=None, join_p=0.15, via_p=0.25):
         nfiles = rng.choice([1, 1, 2, 2, 3, 4])
         fnames = ['p.asm'] + [f'inc{i}.asm' for i in range(1, nfiles)]
         files = {f: [] for f in fnames}
@@ -269,10 +295,21 @@ class C06(core.Check):
             return None
         if not illegal and m['kind'] != 'ACCEPT':
             return None
+        # some references stand inside an operand form that embeds an expression ([x], [[x]], sp+x, [a+x], [sp+x])
+        for f in fnames:
+            for it in files[f]:
+                if it['k'] == 'ref' and not it.get('zero') and rng.random() < via_p:
+                    it['via'] = rng.choice(sorted(VIA))
+                    tags.add('reference-inside-an-operand-form')
+                    tags.add('reference-inside:' + it['via'])
         # layout of the stream
         lines = []
         for it in m['stream']:
             k = it['k']
+            if k == 'ref' and it.get('via'):
+                lines.append({'k': 'data', 'width': 1, 'vals': list(VIA[it['via']][1]), 'src': {'k': 'refprefix'}})
+                lines.append({'k': 'data', 'width': 2, 'vals': [0], 'src': it})
+                continue
             if k == 'marker':
                 lines.append({'k': 'data', 'width': 1, 'vals': [it['v']], 'src': it})
             elif k == 'ref' and it.get('zero'):
@@ -320,6 +357,9 @@ class C06(core.Check):
                     out.append(f".byte {it['v']}")
                 elif k == 'ref' and it.get('zero'):
                     out.append(f".fill {it['zero']}, " + rng.choice(['{}', '{} + 1', 'BYTE0({})']).replace('{}', it['name']))
+                elif k == 'ref' and it.get('via'):
+                    form = rng.choice(['{}', '{}', '{}+0', '{} + 1 - 1', '{}*1', '({})'])
+                    out.append(VIA[it['via']][0].replace('{}', form.replace('{}', it['name'])))
                 elif k == 'ref':
                     form = rng.choice(['{}', '{}', '({})', '{} + 0', '{}+1-1', 'BYTE1({})<<8 | BYTE0({})'])
                     out.append('.2byte ' + form.replace('{}', it['name']))
@@ -340,8 +380,7 @@ class C06(core.Check):
                 elif k == 'unmute':
                     out.append(rng.choice(['#unmute', '#emit']))
             fl[f] = '\n'.join(out) + '\n'
-        isa = gen_prog.layout_isa(16, endian='big', zones=zones)
-        isa['general']['registers'] = list(isa['general']['registers']) + ['SPQ', 'Rx', 'IDX']
+        isa = make_isa(zones)
         fn, text = isamod.render_isa(isa, 'json')
         fl[fn] = text
         tags.add('expect:' + m['kind'])
@@ -512,6 +551,7 @@ class C06(core.Check):
                'dup-global-across-files', 'dup-file', 'dup-local', 'orphan-local', 'register-name', 'keyword-name', 'dup-same-value']
 
     def cases(self, tier, seed):
+        yield from self.shadow_cases()
         n_pre = 420
         n = 500 if tier == 'quick' else 9000
         made = 0
@@ -532,6 +572,24 @@ class C06(core.Check):
                 continue
             made += 1
             yield c
+
+    def shadow_cases(self):
+        """a local name inside an operand form, with a global of the same spelling minus the period: the local one is meant
+        where it is visible, and nothing is meant where it is not"""
+        fn, text = isamod.render_isa(make_isa([]), 'json')
+        for via, (form, prefix) in sorted(VIA.items()):
+            for expr in ('.loop', '.loop+0', '(.loop)'):
+                use = form.replace('{}', expr)
+                for where in ('visible', 'other-region', 'nowhere'):
+                    body = ['loop:', '.byte 1', 'main:', '.byte 2'] + (['.loop:'] if where != 'nowhere' else []) + ['.byte 3']
+                    body += [use, 'fin:', '.byte 4'] if where == 'visible' else ['fin:', '.byte 4', use]
+                    kind = 'ACCEPT' if where == 'visible' else 'REJECT'
+                    img = bytes([1, 2, 3] + prefix + [0, 2, 4]).hex() if where == 'visible' else None
+                    yield {'runs': [{'files': {fn: text, 'p.asm': '\n'.join(body) + '\n'}, 'argv': ['compile', '-c', fn, 'p.asm', '-o', 'out.bin'],
+                                     'probes': ['steps', 'labels'], 'step_limit': 600000}],
+                           'meta': {'kind': kind, 'why': 'local name ' + where, 'image': img, 'illegal': 'local-inside-operand-form/' + where},
+                           'tags': sorted({'expect:' + kind, 'files:1', 'local-inside-operand-form-with-same-named-global',
+                                           'reference-inside:' + via})}
 
     def judge(self, case, outcomes):
         o = outcomes[0]
